@@ -302,10 +302,15 @@ def snake_chunks(n, first_avail_bytes):
     return out
 
 
-def h_snake(ctx, n, prefix_bytes=0, sym_window=None, as_string=False, prefix_bits=0):
+def h_snake(ctx, n, prefix_bytes=0, sym_window=None, as_string=False, prefix_bits=0, utf=None):
     """snake-chained byte strings: round trip and chain layout; contents symbolic (entirely, or a window of
     `sym_window` bytes at the chunk boundary with concrete filler for the very long ones)"""
-    if sym_window is None or sym_window >= n:
+    if utf:
+        # text with multi-byte characters (per-character UTF-8 lengths `utf`): a cell border may fall inside a character
+        data = ctx.unitext('data', utf)
+        n = sum(utf)
+        as_string = True
+    elif sym_window is None or sym_window >= n:
         data = ctx.ascii('data', n) if as_string else ctx.bytes_('data', n)
     else:
         # window centred on the first cell boundary
@@ -424,6 +429,8 @@ def instances(tier, seed):
         for n in (1, 2, 130):
             yield 'h_snake', dict(n=n, prefix_bytes=pb, prefix_bits=xb)
     yield 'h_snake', dict(n=3, prefix_bytes=127, as_string=True)
+    for utf, pb in (([2] * 70, 0), ([3] * 50, 0), ([1] + [2] * 70, 0), ([2] * 5, 120), ([3, 3, 3], 124), ([2] * 130, 0)):
+        yield 'h_snake', dict(n=0, utf=utf, prefix_bytes=pb)
     if tier == 'thorough':
         yield 'h_snake', dict(n=127 * 40, sym_window=16)
 
